@@ -146,6 +146,76 @@ impl<T> MpmcChannelInternal<T> {
   }
 }
 
+impl<T> MpmcChannelInternal<T> {
+  /// Hands a wake that a cancelled waiter consumed on to the next parked
+  /// receiver, if an item is still waiting to be received. Must be called with
+  /// the mutex held; the returned handle is woken after it is released.
+  pub(crate) fn pass_wake_to_receiver(&mut self) -> Option<WakeRef> {
+    if self.is_empty() {
+      return None;
+    }
+    let mut i = 0;
+    while i < self.waiting_async_receivers.len() {
+      let waiter_state = unsafe { &*self.waiting_async_receivers[i].state };
+      if waiter_state
+        .compare_exchange(STATE_WAITING, STATE_SUCCESS_SPACE, Ordering::SeqCst, Ordering::SeqCst)
+        .is_ok()
+      {
+        let waiter = self.waiting_async_receivers.remove(i).unwrap();
+        return Some(WakeRef::Waker(waiter.waker));
+      }
+      i += 1;
+    }
+    let mut i = 0;
+    while i < self.waiting_sync_receivers.len() {
+      let waiter_state = unsafe { &*self.waiting_sync_receivers[i].state };
+      if waiter_state
+        .compare_exchange(STATE_WAITING, STATE_SUCCESS_SPACE, Ordering::SeqCst, Ordering::SeqCst)
+        .is_ok()
+      {
+        let waiter = self.waiting_sync_receivers.remove(i).unwrap();
+        return Some(WakeRef::Thread(waiter.thread));
+      }
+      i += 1;
+    }
+    None
+  }
+
+  /// Hands a wake that a cancelled waiter consumed on to the next parked sender,
+  /// if the buffer still has room. Same locking contract as
+  /// [`pass_wake_to_receiver`](Self::pass_wake_to_receiver).
+  pub(crate) fn pass_wake_to_sender(&mut self, capacity: usize) -> Option<WakeRef> {
+    if capacity == 0 || self.is_full(capacity) {
+      return None;
+    }
+    let mut i = 0;
+    while i < self.waiting_async_senders.len() {
+      let waiter_state = unsafe { &*self.waiting_async_senders[i].state };
+      if waiter_state
+        .compare_exchange(STATE_WAITING, STATE_SUCCESS_SPACE, Ordering::SeqCst, Ordering::SeqCst)
+        .is_ok()
+      {
+        let waiter = self.waiting_async_senders.remove(i).unwrap();
+        return Some(WakeRef::Waker(waiter.waker));
+      }
+      i += 1;
+    }
+    let mut i = 0;
+    while i < self.waiting_sync_senders.len() {
+      let waiter_state = unsafe { &*self.waiting_sync_senders[i].state };
+      if waiter_state
+        .compare_exchange(STATE_WAITING, STATE_SUCCESS_SPACE, Ordering::SeqCst, Ordering::SeqCst)
+        .is_ok()
+      {
+        let waiter = self.waiting_sync_senders.remove(i).unwrap();
+        return Some(WakeRef::Thread(waiter.thread));
+      }
+      i += 1;
+    }
+    None
+  }
+}
+
 /// The shared owner of the channel's internal state, designed to be wrapped in an `Arc`.
 #[derive(Debug)]
 pub(crate) struct MpmcShared<T> {
